@@ -257,8 +257,11 @@ def e2_collect(pid, facts, merged):
             'unsafe_callee_counts': counts,
             'interpreter_wall_s': round(m['wall'], 2),
             'config': cfg,
-            'schema_classes': {r['root']: r['digest'].get('classes') for r in m['roots'].values()
-                               if r.get('digest', {}).get('classes') and pid in (r.get('root_props') or ())},
+            'schema_classes': {r['root']: dict(r['digest'].get('classes') or {}, **{'iteration:' + k: v for k, v in
+                                                                                     (r['digest'].get('iteration_classes') or {}).items()})
+                               for r in m['roots'].values()
+                               if (r.get('digest', {}).get('classes') or r.get('digest', {}).get('iteration_classes'))
+                               and pid in (r.get('root_props') or ())},
         }
     return vs, ob, dis, samples, stats
 
